@@ -54,7 +54,7 @@ def reshape(req):
         reshaper_schema = schema.POST_RESHAPER_SCHEMA_V1_34
     data = util.extract_json(req.body, reshaper_schema)
     inventories = data['inventories']
-    allocations = data['allocations']
+    allocations = allocation.normalize_consumer_keys(data['allocations'])
     # We're going to create several lists of Inventory objects, keyed by rp
     # uuid.
     inventory_by_rp = {}
